@@ -38,6 +38,7 @@ def check(ctx) -> None:
     ctx.rule("C02.every-instr", "the probe loop considers every instruction of a block; probes go before the instruction", floor=10)
     ctx.rule("C02.enabled", "GUARD: tracer callbacks record only while tracing is enabled", floor=10)
     ctx.rule("C02.api", "TABLE-AGREE: instrumentation method calls match the tracer's methods (existence, arity, forwarding order)", floor=40)
+    ctx.rule("C02.isolation", "ABSINT: init_trace gives every execution a private copy of the import trace (no container shared; lines of one execution do not reach the next or the import trace); analyze_results leaves the stored trace of every result untouched and never hands one out as the accumulator", floor=3)
     ctx.rule("C02.metric", "WHO-MAY + shape: line coverage = |covered_line_ids| / |existing_lines|; covered_line_ids written by track_line_visit only", floor=3)
     for v in I.VERSIONS:
         _visit_line(ctx, repo, v)
@@ -45,6 +46,7 @@ def check(ctx) -> None:
         _api(ctx, repo, v)
     _enabled(ctx, repo)
     _metric(ctx, repo)
+    _isolation(ctx, repo)
 
 
 # ------------------------------------------------------------------------------------------------ id flow and loop shape
@@ -214,6 +216,69 @@ def _enabled(ctx, repo) -> None:
 
 
 # ------------------------------------------------------------------------------------------------ metric
+def _isolation(ctx, repo, rule: str = "C02.isolation") -> None:
+    """init_trace / analyze_results interpreted over traces built from the ExecutionTrace class: what one execution
+    (or one suite evaluation) records must not reach the import trace, an earlier result or another test's result -
+    no mutable container is shared and no stored trace is used as the accumulator."""
+    from sa.checks.c07 import OSet
+    from sa.engine import peval
+
+    tmod = repo.module(TR)
+    cres = peval.repo_class_resolver(repo, only={"ExecutionTrace", "ExecutedAssertion", "ExecutionTracer", "AbstractExecutionTracer"})
+    CONTAINERS = ("executed_code_objects", "executed_predicates", "true_distances", "false_distances", "covered_line_ids", "executed_instructions", "object_addresses", "executed_assertions", "checked_lines")
+
+    def replace_(obj, **changes):  # dataclasses.replace: a new instance, unchanged fields are the same objects
+        new = peval.Obj(obj.label, fields={**obj.fields, **changes}, classes=list(obj.classes))
+        new.methods, new.props, new.mro = dict(obj.methods), dict(obj.props), getattr(obj, "mro", None)
+        return new
+
+    def interp():
+        return peval.Interp(resolver=peval.repo_resolver(repo), class_resolver=cres, externs={"OrderedSet": OSet, "replace": replace_, "dataclasses.replace": replace_}, native_types=(OSet,))
+
+    def trace(it, lines, code=()):
+        return it.instantiate("ExecutionTrace", cres("ExecutionTrace", tmod), [], {"executed_code_objects": OSet(code), "executed_predicates": {}, "true_distances": {}, "false_distances": {}, "covered_line_ids": OSet(lines),
+                                                                                    "executed_instructions": [], "object_addresses": OSet(), "executed_assertions": [], "checked_lines": OSet()}, init=False)
+
+    # --- the tracer: two executions after the import
+    fn = repo.func(TR, "ExecutionTracer.init_trace")
+    ctx.analysed(fn)
+    try:
+        it = interp()
+        imp = trace(it, [1], [0])
+        tracer = it.instantiate("ExecutionTracer", cres("ExecutionTracer", tmod), [], {"_import_trace": imp, "_thread_local_state": peval.Obj("tls", fields={"trace": trace(it, [99]), "enabled": True})}, init=False)
+        tracer.methods["init_trace"]()
+        first = tracer.fields["_thread_local_state"].fields["trace"]
+        shared = [f for f in CONTAINERS if first.fields.get(f) is imp.fields.get(f)]
+        first.fields["covered_line_ids"].add(7)           # what track_line_visit does during the first execution
+        first.fields["executed_code_objects"].add(5)
+        tracer.methods["init_trace"]()
+        second = tracer.fields["_thread_local_state"].fields["trace"]
+        got = (sorted(second.fields["covered_line_ids"]), sorted(second.fields["executed_code_objects"]), sorted(imp.fields["covered_line_ids"]))
+        ok = first is not imp and second is not first and not shared and got == ([1], [0], [1])
+        ctx.check(rule, fn, ok, f"init_trace: the trace of an execution shares {shared or 'nothing'} with the import trace; after an execution that covered line 7, the next execution starts with lines {got[0]} / code objects {got[1]} and the import trace holds lines {got[2]} (expected [1] / [0] / [1]): lines of earlier executions are reported for later ones", what="every execution starts from a private copy of the import trace", stmt="[init_trace]")
+    except (peval.Undecided, peval.Raises) as exc:
+        ctx.undecide(rule, fn, f"init_trace: {exc}")
+    # --- the suite: merging the results of several tests must leave each result as it was
+    ar = repo.func(FM, "analyze_results")
+    ctx.analysed(ar)
+    try:
+        it = interp()
+        t1, t2, t3 = trace(it, [1, 2]), trace(it, [3]), trace(it, [4, 5])
+        t1.fields["true_distances"][0], t1.fields["false_distances"][0], t1.fields["executed_predicates"][0] = 0.0, 2.0, 1     # test 1 took the true outcome only
+        t2.fields["true_distances"][0], t2.fields["false_distances"][0], t2.fields["executed_predicates"][0] = 3.0, 0.0, 1     # test 2 the false outcome only
+        results = [peval.Obj(f"result{i}", fields={"execution_trace": t}) for i, t in enumerate((t1, t2, t3))]
+        merged = it.run_function(ar, [results], {}, repo.module(FM))
+        per_test = [sorted(t.fields["covered_line_ids"]) for t in (t1, t2, t3)]
+        outcomes = [(t.fields["true_distances"].get(0), t.fields["false_distances"].get(0)) for t in (t1, t2)]
+        ok = merged is not t1 and merged is not t2 and merged is not t3 and per_test == [[1, 2], [3], [4, 5]] and sorted(merged.fields["covered_line_ids"]) == [1, 2, 3, 4, 5] and outcomes == [(0.0, 2.0), (3.0, 0.0)] and (merged.fields["true_distances"].get(0), merged.fields["false_distances"].get(0)) == (0.0, 0.0)
+        ctx.check(rule, ar, ok, f"analyze_results: after merging three results their own traces hold lines {per_test} (expected [[1, 2], [3], [4, 5]]), the (true, false) distances of predicate 0 in tests 1 and 2 are {outcomes} (expected [(0.0, 2.0), (3.0, 0.0)]) and the merged trace {'is one of them' if any(merged is t for t in (t1, t2, t3)) else 'is a new one'}: a test case then reports lines and branch outcomes that only other tests of the suite took", what="merging leaves every result's own trace untouched", stmt="[analyze_results]")
+        single = it.run_function(ar, [[results[1]]], {}, repo.module(FM))
+        single.fields["covered_line_ids"].add(42)
+        ctx.check(rule, ar, sorted(t2.fields["covered_line_ids"]) == [3], "analyze_results hands out the stored trace of a single result: whoever merges into the returned trace changes the cached result", what="a single result is copied, too", stmt="[analyze_results single]")
+    except (peval.Undecided, peval.Raises) as exc:
+        ctx.undecide(rule, ar, f"analyze_results: {exc}")
+
+
 def _metric(ctx, repo) -> None:
     fn = repo.func(FM, "compute_line_coverage")
     ctx.analysed(fn)
